@@ -523,5 +523,8 @@ func refUnits(tier string) []harness.Unit {
 		}
 	}
 	u = append(u, refPaddingSweepUnit(true), refPaddingSweepUnit(false))
+	for _, s := range []uint16{gmref.SuiteAESCBC, gmref.SuiteAESGCM, aesCBCTLS10, aesCBCTLS11} {
+		u = append(u, refEpochUnit(s))
+	}
 	return u
 }
